@@ -11,6 +11,8 @@ def eval_case(case):
     S = O.Static(case)
     out = []
     b, trace = sim.run_ops(case)
+    if any(op.get("unit_time", 1) != 1 for op in case["ops"]):
+        return eval_unit_time(case, S, trace)
     for n, rec in enumerate(trace):
         name = rec["op"]["op"]
         if rec["exc"] is not None:
@@ -28,6 +30,31 @@ def eval_case(case):
             "sig": simcheck.behaviour_sig(S, trace) + (tuple(r["op"]["op"] for r in trace),),
             "hist": simcheck.base_hist(S, trace), "nontrivial": any((r.get("dump") or {}).get("time", 0) >= 2 for r in trace),
             "summary": {"times": [r["dump"]["time"] if r.get("dump") else None for r in trace]}}
+
+
+def eval_unit_time(case, S, trace):
+    """simulate(unit_time=u), u > 1: the clock advances by u per recorded step.  Only the
+    alignment clause is judged here (the model and the per-entry oracle assume unit_time = 1);
+    the violation carries its own signature, listed in known_findings.json"""
+    out = []
+    for rec in trace:
+        if rec["exc"] is not None:
+            out.append(O.V("operation raised", "C08/raises/" + rec["op"]["op"] + "/" + rec["exc"].split(":")[0], rec["exc"]))
+            break
+        v = O.c08_lengths(rec["dump"])
+        if v:
+            d = rec["dump"]
+            u = rec["op"].get("unit_time", 1)
+            n = O.log_lengths(d)
+            steps = sorted(set(n.values()))
+            if len(steps) == 1 and d["time"] == u * steps[0]:
+                out.append(O.V("(a) simulate(unit_time=%d): project.time = %d but every log has %d entries" % (u, d["time"], steps[0]),
+                               "C08/unit-time", {"unit_time": u, "time": d["time"], "entries": steps[0]}))
+            else:
+                out += v
+            break
+    return {"violations": out, "disagreements": [], "sig": ("unit_time",) + tuple(r["op"].get("unit_time", 1) for r in trace),
+            "hist": {"cases": 1, "unit_time_cases": 1}, "nontrivial": True, "summary": {"unit_time": True}}
 
 
 def _strip(rec, nt):
@@ -67,13 +94,17 @@ def gen_cases(rng, n):
         if rng.random() < 0.8:
             gen.simplify_feasible(rng, c)
         c["ops"] = gen_ops(rng, c)
+        if rng.random() < 0.04:          # the unit_time option (known finding C08/unit-time)
+            o = gen.gen_sim_op(rng, c)
+            o["unit_time"] = rng.choice([2, 2, 3])
+            c["ops"] = [o]
         cases.append(c)
     return cases
 
 
 def run(ctx):
     rng = random.Random(ctx["seed"])
-    n = 15000 if ctx["tier"] == "thorough" else 300
+    n = 15000 if ctx["tier"] == "thorough" else 900
     cases = simcheck.load_corpus("C08") + gen_cases(rng, n)
     results = simcheck.run_cases(ctx, "harness.props.c08", cases)
     return simcheck.summarise(ctx, cases, results,
